@@ -101,17 +101,21 @@ def run(fn, init, transfer, refine=None, at_exit=None, extra_edges=None, entry=N
             for s in states:
                 s2 = s
                 if refine is not None and cond is not None and len(succs) == 2:
+                    # the edge's facts, one atom at a time: the condition as written, its operands
+                    # when it is a conjunction (true edge) / disjunction (false edge), the same with
+                    # named temporaries written out, and the truth value of X for `X == 0`,
+                    # `X != nullptr`, `flag == true` (Fn.cond_atoms). refine() must be idempotent.
                     s2 = refine(cond, idx == 0, s, b)
                     if s2 is None:
                         continue
-                    if s2 == s:
-                        # not recognised as written: try the condition with its named temporaries
-                        # written out (`if (writerPresent)` -> `if ((prev & kBit) != 0)`)
-                        xc = fn.expand_expr(cond, use_block=b)
-                        if xc is not cond:
-                            s2 = refine(xc, idx == 0, s, b)
-                            if s2 is None:
-                                continue
+                    dead = False
+                    for a, p, _ in fn.cond_atoms(cond, idx == 0, b)[1:]:
+                        s2 = refine(a, p, s2, b)
+                        if s2 is None:
+                            dead = True
+                            break
+                    if dead:
+                        continue
                 push(sb, s2, k)
         if extra_edges and b in extra_edges:
             for sb in extra_edges[b]:
